@@ -35,6 +35,7 @@ def run(P, R, L):
     R.clause("GRD-12", "a WAL / manifest is re-opened for appending only if the reader consumed it completely (no append after a torn tail)")
     K.grd12_reuse_only_complete_logs(P, R, L)
     K.grd12_cursor_counts_complete_reads(P, R, L)
+    K.grd12_fully_consumed_is_exact(P, R, L)
     # everywhere else a log is created fresh (truncating): a new WAL / a new manifest never inherits stale bytes
     allowed = {"db::DB::recover_wal_records", "versioning::version_set::VersionSet::maybe_reuse_manifest"}
     n = 0
@@ -51,4 +52,9 @@ def run(P, R, L):
         R.check("OWN-7", "%s|log-create-mode" % c.body.path, ok, c.where(),
                 "outside the two reuse paths every LogWriter::new truncates (is_appending = false)", "is_appending=%s" % val)
     R.floor("OWN-7", "LogWriter::new call sites", n, 5)
+    R.clause("ORD-5", "a torn first edit of a freshly created manifest cannot strand the database: CURRENT is switched only after that edit was appended")
+    from .c02 import ord5_manifest_before_current
+    ord5_manifest_before_current(P, R, L)
+    R.clause("GRD-18", "short reads are noticed: outside the file-system layer every read is read_exact or has its byte count compared with the expected length")
+    K.grd18_short_reads(P, R, L)
     R.not_decided += ["offset arithmetic of LogWriter::new(is_appending = true)", "records appended inside a torn block"]
